@@ -64,7 +64,9 @@ fn size_strategy(thorough: bool, big_share: bool) -> BoxedStrategy<u32> {
 fn col_strategy(kind: BoxedStrategy<u8>) -> impl Strategy<Value = ColSpec> {
     (
         kind,
-        prop_oneof![3 => 1u16..6, 3 => 6u16..40, 1 => 40u16..2000],
+        // the last class gives (nearly) unique keys: more than 2048 groups / distinct values on the large tables,
+        // so grouped and de-duplicated outputs themselves span several 2048-row chunks
+        prop_oneof![3 => 1u16..6, 3 => 6u16..40, 1 => 40u16..2000, 1 => Just(60_000u16)],
         prop_oneof![3 => Just(0u8), 3 => 1u8..40, 1 => Just(100u8), 1 => 40u8..100],
         any::<u32>(),
     )
